@@ -27,7 +27,7 @@ theorem C06_marker_none (a : Ast) (p : Plans) (fuel : Nat) (nm ty : String) (o :
   simp [evalFields, readU32_be32 0 (by decide)]
 
 /-- an enum word matching no declared member is `UnknownVariant(word as i32)` -/
-theorem C06_enum_strict (a : Ast) (p : Plans) (fuel : Nat) (name : String) (i : Impl) (arms : List (String × String))
+theorem C06_enum_strict (a : Ast) (p : Plans) (fuel : Nat) (name : String) (i : Impl) (arms : List (VariantValue × String))
     (hi : p.findImpl name = some i) (hb : i.body = .enum arms) (n : Nat) (hn : n < 2^32) (o : Nat) (s : List Byte) (l)
     (hnone : selectEnum a (.i32 (toSigned 32 n)) arms = none) :
     evalImpl a p (fuel + 1) name ⟨o, be32 n ++ s, l⟩ = .err (.unknownVariant (toSigned 32 n)) l := by
